@@ -68,7 +68,7 @@ class C08(CommProp):
             "get_async, filtered sends/receives (match functions on tag, wanted sender, wanted receiver; blocking through Comm::send/recv, "
             "asynchronous and detached through the raw isend/irecv simcalls like SMPI), wait / wait with timeout / wait_for_or_cancel / test / "
             "cancel / wait_any / test_any on handles, set_receiver (at once or late), sleeps on a 1/4 s grid, kernel-linearised dumps of the "
-            "mailbox queues; every handle is finalised by an explicit wait or cancel. Oracle: the sequential specification driven by the log "
+            "mailbox queues, Mailbox::iprobe with the same filters; every handle is finalised by an explicit wait or cancel. Oracle: the sequential specification driven by the log "
             "in request order (queue of unmatched comms in arrival order, a new comm takes the OLDEST queued opposite comm that both filters "
             "accept, permanent receivers store eager sends until a receive takes the oldest acceptable one): every successful receive must "
             "return the payload (sender, sequence number) of exactly the put the specification matched, intact, with the sent size and tag, "
@@ -81,7 +81,7 @@ class C08(CommProp):
     assumptions = ["sequential runs (contexts/nthreads:1): the order of request records is the order in which the kernel handles them",
                    "completion dates are observations (platform model: C19-C23), only order and identity are decided",
                    "model-checker interleavings of the same programs are covered by C14/C38, not here",
-                   "iprobe, Mailbox::clear, kills, host/link failures and suspended actors are outside the domain"]
+                   "Mailbox::clear, kills, host/link failures and suspended actors are outside the domain"]
 
     def strategy(self, tier):
         return commgen.mailbox_programs(max_msgs=10 if tier == "quick" else 18)
